@@ -23,7 +23,15 @@ import (
 	"verif/engine/interp"
 )
 
-const repoRoot = "/repo"
+// repoRoot is the tree under verification: always /repo for registered checks.
+// $VERIF_REPO points a run at a scratch worktree instead (used only to try a
+// seeded change without touching /repo); such a run never writes evidence.
+var repoRoot, scratchRepo = func() (string, bool) {
+	if v := os.Getenv("VERIF_REPO"); v != "" && v != "/repo" {
+		return v, true
+	}
+	return "/repo", false
+}()
 
 // verifRoot is the framework directory: $VERIF_ROOT, else the current
 // directory when it holds harness/ (the check script cds there), else /verif.
@@ -196,7 +204,10 @@ func cmdCheck(args []string) int {
 		noReplay: *noReplay, trace: *tracePath}
 	code := run.run()
 	run.wall = time.Since(start)
-	if !*noEvidence && *only == "" {
+	if scratchRepo {
+		fmt.Printf("gosym: NOTE: checking scratch tree %s (VERIF_REPO), no evidence written\n", repoRoot)
+	}
+	if !*noEvidence && *only == "" && !scratchRepo {
 		if err := run.writeEvidence(); err != nil {
 			fmt.Fprintln(os.Stderr, "gosym: writing evidence:", err)
 			if code == 0 {
